@@ -61,6 +61,10 @@ def mulFast (k : Nat) : Pt → Pt
 
 end Secp
 
+/-- the FORMER curve record of the driver (fast affine / Jacobian arithmetic over `Option (Nat × Nat)`). Its carrier
+    contains junk values (`some (0, 0)`, unreduced or off-curve pairs) and `xy` is the identity, so `EcLaws secpOps → False`
+    (`Props/C02Z.old_driver_record_unlawful`; second audit A-1). Since then the driver evaluates `Crypto.secpLawful`
+    (Crypto/SecpLawful.lean); this record is kept only for the differential ops `ecops.*` (Driver/PyCurve.lean). -/
 def secpOps : EcOps where
   Pt := Secp.Pt
   add := Secp.add
